@@ -354,6 +354,12 @@ func sameExpr(a, b ssa.Value, d int) bool {
 	if gb, ok := getterOf(cb); ok && oka && "Get"+ra.Field == gb.name {
 		return sameExpr(ra.Base, gb.recv, d+1)
 	}
+	// the same argument-less accessor on the same receiver (x.LastOffset() twice in a row)
+	if xa, ok := ca.(*ssa.Call); ok {
+		if xb, ok := cb.(*ssa.Call); ok && xa.Call.IsInvoke() && xb.Call.IsInvoke() && xa.Call.Method == xb.Call.Method && len(xa.Call.Args) == 0 && len(xb.Call.Args) == 0 {
+			return sameExpr(xa.Call.Value, xb.Call.Value, d+1)
+		}
+	}
 	if ca2, ok := ca.(*ssa.Const); ok {
 		if cb2, ok := cb.(*ssa.Const); ok && ca2.Value != nil && cb2.Value != nil {
 			return ca2.Value.ExactString() == cb2.Value.ExactString() && types.Identical(ca2.Type(), cb2.Type())
